@@ -58,7 +58,7 @@ def def_text(d, style=0):
     parts = []
     for i, rg in enumerate(d["rs"]):
         implicit = len(d["rs"]) == 1 and rg["ty"] == ">" and rg["s"] == 0 and style % 3 != 2
-        marker = "" if implicit else "%s%s " % (rg["ty"], ("%d" % rg["s"]) if style % 2 else ("%.1f" % rg["s"]))
+        marker = "" if implicit else "%s%s " % (rg["ty"], ("%d" % rg["s"]) if style % 2 else ("%.1f" % rg["s"]))      # starts may be negative
         parts.append(marker + item_text(rg["it"], style))
     return " ".join(parts)
 
@@ -220,6 +220,22 @@ def _one(idx):
                 continue
             # ---- C07
             off = case["offers"]
+            if g is not None and not row["boundary"] and row["dom"]:
+                # the same pieces composed through the Python API (plain callables for the non-analytic leaves)
+                for name, want in (("deriv", d1), ("deriv2", d2)):
+                    if hasattr(g, name):
+                        try:
+                            dv = getattr(g, name)(x)
+                        except Exception as e:
+                            out["bad"].append(("evaluation-raises", "%s (Python API): .%s(%s) raised %s: %s" % (def_text(d, style), name, x, type(e).__name__, e), text))
+                            return out
+                        tol = 1e-9 * S if row["analytic"] else (1e-6 if name == "deriv" else 2e-3) * S
+                        if abs(dv - want) > tol:
+                            out["bad"].append((name, "%s composed through the Python API: .%s(%s) = %r, the true derivative is %r" % (def_text(d, style), name, x, dv, want), text))
+                            return out
+                if abs(Potential("A", "B", g).force(x) + d1) > (1e-9 if (row["analytic"] and off["d1"]) else 1e-6) * S:
+                    out["bad"].append(("force", "%s composed through the Python API: Potential.force(%s) = %r, minus the true slope is %r" % (def_text(d, style), x, Potential("A", "B", g).force(x), -d1), text))
+                    return out
             for name, want, o in (("deriv", d1, off["d1"]), ("deriv2", d2, off["d2"])):
                 if hasattr(f, name) != o:
                     out["bad"].append(("offers", "%s: callable %s .%s, the specification says it %s" % (
